@@ -151,6 +151,14 @@ def catalogue():
                   P + "(log \"r\" (hy.repr '(a b)) (hy.repr [1 \"a\"]))", P + "(log \"r\" ':k :k (hy.models.Keyword \"z\"))"]
     C["assert-raise"] = [P + '(assert a)', P + '(assert (= a 4) "msg")', P + '(assert (= a 4) (log "m" "lazy"))', P + '(assert (do (setv q 1) q) (do (setv z "m") z))', P + '(raise (E1 "x"))', P + '(raise E3)',
                          P + '(try (raise (E1 "x") :from (E3 "c")) (except [e E1] (log "c" (str e.__cause__))))', P + '(try (raise (E1 "x") :from None) (except [e E1] (log "c" e.__suppress_context__)))', P + '(assert 0 (+ "a" "b"))']
+    # anonymous functions with an annotation on each kind of parameter (and on nothing else) and a pure-expression body: the annotation
+    # forces a def, because a lambda cannot carry it (compile() ignores it, ast.unparse prints text that does not parse)
+    C["fn-annotated-parameters"] = [
+        P + f'(setv f (fn [{params}] {body})) (log "r" {call})' for params, body, call in (
+            ("#^ int p", "(+ p 1)", "(f 1)"), ("#^ int [p 2]", "(+ p 1)", "(f)"), ("#^ int p /", "(+ p 1)", "(f 1)"), ("* #^ int p", "(+ p 1)", "(f :p 1)"),
+            ("#^ int #* r", "(sum r)", "(f 1 2)"), ("#^ int #** k", "(sorted k)", "(f :a 1)"), ("p #^ int #* r", "(+ p (sum r))", "(f 1 2 3)"),
+            ("p #^ str #** k", "[p (sorted k)]", "(f 1 :z 2)"), ("* [q 1] #^ int #** k", "[q (sorted k)]", "(f :y 2)"))
+    ] + [P + '(log "r" (len #{(fn [#^ int #* r] 0)}) (type #{(fn [#^ int #** k] 0)}))', P + '(setv f (fn #^ int [p] p)) (log "r" (f 1))']
     C["py-pys-annotations"] = [P + '(log "r" (py "a + 1") (py "[x for x in xs]") (py "(lambda: 1)()"))', P + '(pys "q = 1\\nfor i in xs:\\n    log(\'i\', i)") (log "r" q)', P + '(setv #^ int q 1) (setv #^ (get list int) z []) #^ str nv (log "r" __annotations__)',
                                P + '(defn f [#^ int p #^ (| int None) [q None] #^ int #* r #^ str #** k] p) (log "r" f.__annotations__)', P + '(log "r" (annotate q int))'.replace('(log "r" (annotate q int))', '(annotate q int) (log "r" __annotations__)'),
                                P + '(defclass A [] #^ int x (setv #^ str y "s")) (log "r" A.__annotations__)', P + '(deftype :tp [T] Alias (get list T)) (log "r" Alias.__name__)']
